@@ -172,30 +172,35 @@ def ws_norm(s):
 
 
 def unquote_header(v):
-    """The header value as pywbem wrote it.  pywbem does not apply the
-    DSP0200 two-step encoding (UTF-8, then %-escaping), so the comparison with
-    the body uses the raw text; judge_encoding() reports values that a
-    DSP0200-conforming reader would therefore decode to something else."""
+    """The header value as a DSP0200-conforming reader decodes it: undo the
+    %-escaping, then read the bytes as UTF-8."""
     if isinstance(v, bytes):
         v = v.decode('latin-1')
-    return v
+    try:
+        return urllib.parse.unquote(v, encoding='utf-8', errors='strict')
+    except UnicodeDecodeError:
+        return v
 
 
 def judge_encoding(ctx, name, raw, detail):
+    """DSP0200: header values are UTF-8 encoded and then %-escaped, so what
+    is on the wire is printable ASCII in which '%' only introduces an
+    escape."""
     if raw is None:
         return
     if isinstance(raw, bytes):
         raw = raw.decode('latin-1')
-    if urllib.parse.unquote(raw) != raw or any(ord(c) > 127 for c in raw):
+    ctx.count('header-encoding-checked')
+    bad = [c for c in raw if not 0x20 <= ord(c) < 0x7F]
+    esc_ok = all(len(p) >= 2 and all(h in '0123456789abcdefABCDEF'
+                                     for h in p[:2])
+                 for p in raw.split('%')[1:])
+    if bad or not esc_ok:
         ctx.violation(
             'header.dsp0200-encoding-missing',
-            '%s header %r is sent without the DSP0200 encoding (UTF-8, then '
-            '%%-escaping): a conforming server decodes it to %r, which is '
-            'not the name in the body' % (
-                name, raw, urllib.parse.unquote(
-                    raw.encode('latin-1', 'replace').decode('utf-8',
-                                                            'replace'))),
-            detail)
+            '%s header %r is not in the DSP0200 encoding (UTF-8, then '
+            '%%-escaping of everything but printable ASCII, and of %% '
+            'itself)' % (name, raw), detail)
 
 
 def judge_headers(ctx, req, body, detail):
@@ -305,11 +310,35 @@ def judge_headers(ctx, req, body, detail):
                       'keybindings in CIMObject header %r cannot be parsed: '
                       '%s' % (ho, exc), detail)
         return
+    if not paths_equal(parsed, t3) and \
+            paths_equal(cr_normalised(parsed), cr_normalised(t3)):
+        # header and body differ only by what XML line-end normalisation does
+        # to a literal CR in the body: the known CR defect (C01, C04)
+        ctx.violation('body.string.CR-becomes-LF',
+                      'CIMObject header %r carries a CR in a key value, the '
+                      'body holds it literally and reads back as LF: %r'
+                      % (ho, t3.keybindings), detail)
+        return
     if not paths_equal(parsed, t3):
         ctx.violation('header.CIMObject.keys-differ%s'
                       % uri_limit_tags(target),
                       'CIMObject header %r denotes keys %r, body denotes %r'
                       % (ho, parsed.keybindings, t3.keybindings), detail)
+
+
+def cr_normalised(path):
+    """The path with XML line-end normalisation applied to its string keys
+    (recursively)."""
+    if not isinstance(path, CIMInstanceName):
+        return path
+    p = path.copy()
+    for k, v in list(p.keybindings.items()):
+        if isinstance(v, CIMInstanceName):
+            p.keybindings[k] = cr_normalised(v)
+        elif isinstance(v, str) and not isinstance(v, pywbem.CIMDateTime):
+            p.keybindings[k] = type(v)(
+                v.replace('\r\n', '\n').replace('\r', '\n'))
+    return p
 
 
 def paths_equal(parsed, target):
